@@ -139,58 +139,152 @@ func shape(n ast.Node, b *strings.Builder, depth int) {
 	b.WriteString(")")
 }
 
-// Kinds whose source slice is an expression by itself (calibrated on the corpus: every
-// occurrence re-parses).  Not listed: KeyValueExpr, Ellipsis, ElemEllipsis, ForPhrase, RangeExpr,
-// LambdaExpr*, FuncType/StructType/... in non-expression positions, command-style CallExpr.
+// Kinds whose source slice is an expression (or a type) by itself — calibrated on the corpus:
+// every occurrence re-parses to the same tree.  Not listed: KeyValueExpr, Ellipsis, ElemEllipsis,
+// ForPhrase, RangeExpr, LambdaExpr*, MatrixLit (only accepted as a call argument), FuncType
+// (method signatures and declarations are not types by themselves — see reparse).
 var reparseKinds = map[string]bool{
 	"Ident": true, "BasicLit": true, "NumberUnitLit": true, "EnvExpr": true, "SliceLit": true,
 	"ErrWrapExpr": true, "ComprehensionExpr": true, "DomainTextLit": true, "CompositeLit": true, "ParenExpr": true,
-	"SelectorExpr": true, "IndexExpr": true, "SliceExpr": true, "TypeAssertExpr": true, "StarExpr": true,
+	"SelectorExpr": true, "IndexExpr": true, "IndexListExpr": true, "SliceExpr": true, "TypeAssertExpr": true, "StarExpr": true,
 	"UnaryExpr": true, "BinaryExpr": true, "FuncLit": true, "CallExpr": true,
+	"ChanType": true, "ArrayType": true, "MapType": true, "StructType": true, "InterfaceType": true,
 }
 
-func (c *ctxFile) reparse(n ast.Node, stats bool) {
+// Statement kinds whose source slice is a statement of a script by itself (calibrated likewise).
+var reparseStmtKinds = map[string]bool{
+	"ExprStmt": true, "AssignStmt": true, "SendStmt": true, "IncDecStmt": true, "GoStmt": true, "DeferStmt": true,
+	"IfStmt": true, "ForStmt": true, "RangeStmt": true, "ForPhraseStmt": true, "SwitchStmt": true,
+	"TypeSwitchStmt": true, "SelectStmt": true, "ReturnStmt": true, "LabeledStmt": true, "BranchStmt": true,
+}
+
+func shapeOf(n ast.Node) string {
+	var b strings.Builder
+	shape(n, &b, 0)
+	return b.String()
+}
+
+// parseAsStmt parses text as the only statement of a script.
+func parseAsStmt(text string) (st ast.Stmt, err error) {
+	p2, err := astx.SafeParse("/reparse/s.xgo", []byte(text+"\n"))
+	if err != nil {
+		return nil, err
+	}
+	if p2.File.ShadowEntry == nil || p2.File.ShadowEntry.Body == nil || len(p2.File.Decls) != 1 || len(p2.File.ShadowEntry.Body.List) != 1 {
+		return nil, fmt.Errorf("not a single statement")
+	}
+	return p2.File.ShadowEntry.Body.List[0], nil
+}
+
+// parseAsType parses text as the type of a variable declaration.
+func parseAsType(text string) (ast.Expr, error) {
+	p2, err := astx.SafeParse("/reparse/t.xgo", []byte("var _ "+text+"\n"))
+	if err != nil {
+		return nil, err
+	}
+	if len(p2.File.Decls) != 1 {
+		return nil, fmt.Errorf("not a single declaration")
+	}
+	gd, ok := p2.File.Decls[0].(*ast.GenDecl)
+	if !ok || len(gd.Specs) != 1 {
+		return nil, fmt.Errorf("not a var declaration")
+	}
+	vs, ok := gd.Specs[0].(*ast.ValueSpec)
+	if !ok || vs.Type == nil || len(vs.Values) != 0 {
+		return nil, fmt.Errorf("not a type")
+	}
+	return vs.Type, nil
+}
+
+// reparse: the re-parse clause.  An expression node's source slice must parse (as an expression,
+// or as a type, or — for a command-style call — as the expression statement of a script) to a tree
+// of the same shape; a statement's slice must parse to the same statement.
+func (c *ctxFile) reparse(n ast.Node, parentKind string) {
 	kind := astx.KindName(n)
-	if _, isExpr := n.(ast.Expr); !isExpr {
-		return
-	}
-	if call, ok := n.(*ast.CallExpr); ok && call.IsCommand() {
-		return
-	}
 	text := c.src(n.Pos(), n.End())
 	if text == "" {
 		return
 	}
-	if id, ok := n.(*ast.Ident); ok && !token.IsIdentifier(id.Name) {
-		return // operator name of an overload declaration (`func (a T) + (b T)`)
+	want := ""
+	var outcome string
+	var perr error
+	switch x := n.(type) {
+	case ast.Stmt:
+		if !reparseStmtKinds[kind] && kind != "LabeledStmt" && kind != "ReturnStmt" && kind != "BranchStmt" && kind != "BlockStmt" && kind != "DeclStmt" && kind != "EmptyStmt" {
+			return
+		}
+		if strings.HasPrefix(text, "func") {
+			return // at the top level of a script `func …` starts a declaration
+		}
+		want = shapeOf(n)
+		st, err := parseAsStmt(text)
+		switch {
+		case err != nil:
+			outcome, perr = "error", err
+		case shapeOf(st) != want:
+			outcome = "differs"
+		default:
+			outcome = "ok"
+		}
+		c.o.Count("restmt_" + outcome + "_" + kind)
+		if outcome != "ok" && reparseStmtKinds[kind] {
+			c.fail("reparse:"+kind, fmt.Sprintf("%s re-parsed as a statement: %s (%v)", c.where(n), outcome, perr))
+		}
+		return
+	case ast.Expr:
+		if id, ok := n.(*ast.Ident); ok && !token.IsIdentifier(id.Name) {
+			return // operator name of an overload declaration (`func (a T) + (b T)`)
+		}
+		want = shapeOf(n)
+		if call, ok := n.(*ast.CallExpr); ok && call.IsCommand() {
+			// command-style call: only a statement context gives this form
+			st, err := parseAsStmt(text)
+			outcome = "ok"
+			if err != nil {
+				outcome, perr = "error", err
+			} else if es, isES := st.(*ast.ExprStmt); !isES || shapeOf(es.X) != want {
+				outcome = "differs"
+			}
+			c.o.Count("reparse_cmdcall_" + outcome)
+			if outcome != "ok" && parentKind == "ExprStmt" {
+				c.fail("reparse:CallExpr", fmt.Sprintf("%s (command style) re-parsed as a statement: %s (%v)", c.where(n), outcome, perr))
+			}
+			return
+		}
+		_ = x
+	default:
+		return
 	}
+	// expression, then type
+	outcome = "error"
 	var e2 ast.Expr
-	var err error
 	func() {
 		defer func() {
 			if r := recover(); r != nil {
-				err = fmt.Errorf("panic: %v", r)
+				perr = fmt.Errorf("panic: %v", r)
 			}
 		}()
-		e2, err = parser.ParseExpr(text)
+		e2, perr = parser.ParseExpr(text)
 	}()
-	outcome := "ok"
-	if err != nil {
-		outcome = "error"
-	} else {
-		var a, b strings.Builder
-		shape(n, &a, 0)
-		shape(e2, &b, 0)
-		if a.String() != b.String() {
-			outcome = "differs"
+	if perr == nil {
+		outcome = "differs"
+		if shapeOf(e2) == want {
+			outcome = "ok"
+		}
+	}
+	if outcome != "ok" {
+		if t2, err := parseAsType(text); err == nil && shapeOf(t2) == want {
+			outcome = "ok"
 		}
 	}
 	c.o.Count("reparse_" + outcome)
-	if stats {
-		c.o.Count("reparse_" + outcome + "_" + kind)
+	c.o.Count("reparse_" + outcome + "_" + kind)
+	flag := reparseKinds[kind]
+	if kind == "FuncType" { // a type by itself only when it starts with `func` and is not a declaration's signature
+		flag = strings.HasPrefix(text, "func") && parentKind != "FuncDecl"
 	}
-	if outcome != "ok" && reparseKinds[kind] {
-		c.fail("reparse:"+kind, fmt.Sprintf("%s re-parses with %s (%v)", c.where(n), outcome, err))
+	if outcome != "ok" && flag {
+		c.fail("reparse:"+kind, fmt.Sprintf("%s re-parses with %s (%v)", c.where(n), outcome, perr))
 	}
 }
 
@@ -206,7 +300,7 @@ func isComment(n ast.Node) bool {
 //
 //	synthetic: n has no tokens of its own in the source (shadow entry function parts)
 //	inLit:     n lies inside a string / domain text literal (its tokens are not tokens of the file)
-func (c *ctxFile) check(n ast.Node, synthetic, inLit bool, depth int) {
+func (c *ctxFile) check(n ast.Node, parentKind string, synthetic, inLit bool, depth int) {
 	if astx.IsNil(n) || depth > 3000 {
 		return
 	}
@@ -255,7 +349,7 @@ func (c *ctxFile) check(n ast.Node, synthetic, inLit bool, depth int) {
 				prev, prevSlot = cn, ch.Slot
 			}
 		}
-		c.check(cn, childSynthetic, childInLit, depth+1)
+		c.check(cn, kind, childSynthetic, childInLit, depth+1)
 	}
 	cleanBelow := c.nfail == failsBefore
 	if !pos.IsValid() && !end.IsValid() && !synthetic {
@@ -291,7 +385,41 @@ func (c *ctxFile) check(n ast.Node, synthetic, inLit bool, depth int) {
 			c.fail("unbalanced:"+kind, c.where(n)+": brackets in the span are not balanced")
 		}
 		// (d) re-parse
-		c.reparse(n, true)
+		c.reparse(n, parentKind)
+	}
+	// (f) every set token.Pos field lies within the span and points at its token
+	if !synthetic && !inLit {
+		for _, pf := range astx.PosFieldsOf(n) {
+			off := int(pf.Pos) - c.base
+			key := kind + "." + pf.Name
+			switch {
+			case pf.Spec.Skip:
+			case pf.Spec.EqPos:
+				if pf.Pos != pos {
+					c.fail("posfield:"+key, fmt.Sprintf("%s: %s=%d is not the node's Pos", c.where(n), pf.Name, off))
+				}
+			case pf.Spec.EqEnd:
+				if pf.Pos != end {
+					c.fail("posfield:"+key, fmt.Sprintf("%s: %s=%d is not the node's End", c.where(n), pf.Name, off))
+				}
+			case pf.Spec.TokStart:
+				if !c.tokStart[off] || pf.Pos < pos || pf.Pos >= end {
+					c.fail("posfield:"+key, fmt.Sprintf("%s: %s=%d is not the start of a token inside the span", c.where(n), pf.Name, off))
+				}
+			default:
+				found := ""
+				for _, w := range pf.Want {
+					if c.exact[[2]int{off, off + len(w)}] && off+len(w) <= len(c.p.Src) && string(c.p.Src[off:off+len(w)]) == w {
+						found = w
+					}
+				}
+				if found == "" {
+					c.fail("posfield-token:"+key, fmt.Sprintf("%s: no token %q at %s=%d", c.where(n), pf.Want, pf.Name, off))
+				} else if pf.Pos < pos || int(pf.Pos)+len(found) > int(end) {
+					c.fail("posfield-outside:"+key, fmt.Sprintf("%s: its token %q at %s=%d lies outside the span", c.where(n), found, pf.Name, off))
+				}
+			}
+		}
 	}
 	// (e) layout
 	if !synthetic {
@@ -346,7 +474,7 @@ func runParsed(recipe string, p *astx.Parsed, o *vh.Out) {
 	for i, n := range order {
 		parts[i] = strconv.Itoa(d.ID(n)) + ":" + safe(n.Pos) + ":" + safe(n.End)
 	}
-	c.check(p.File, false, false, 0)
+	c.check(p.File, "", false, false, 0)
 	switch {
 	case d.N < 30:
 		o.Count("size_lt30")
